@@ -138,11 +138,11 @@ class C03(Prop):
         d = shapes_diff(f, shapes, path_data=True)
         if d:
             return [Mismatch(stream="c03.doc", case=case, impl=d, model="see impl: first difference")]
-        # reify(): the numbers, residual matrix and stroke width of every reified shape against Model/Reify
+        # reify(): the numbers and the residual matrix of every reified shape against Model/Reify
         t = obs["t"]
         if isinstance(t, list) and len(t) == len(shapes):
             for i, (o, w) in enumerate(zip(t, shapes)):
-                d = dg.reified_diff(o, w)
+                d = dg.reified_diff(o, w, stroke=False)      # the stroke width is C14's observable
                 if d:
                     return [Mismatch(stream="c03.reify", case=case, impl="shape %d: %s" % (i, d), model="see impl")]
         return []
